@@ -841,10 +841,36 @@ func (u *Unit) box(v Value) Value {
 }
 
 // facts about a freshly boxed value of static type ty
+// predicate "the dynamic type is (an instantiation of) the named type N", used where a type id is not available
+func dynIsName(ty types.Type) string {
+	if n, ok := types.Unalias(ty).(*types.Named); ok {
+		return "dyn_isa_" + n.Origin().Obj().Name()
+	}
+	return "dyn_is_" + identSan.ReplaceAllString(types.TypeString(ty, func(*types.Package) string { return "" }), "_")
+}
+
+func dynImplName(ty types.Type) string {
+	if n, ok := types.Unalias(ty).(*types.Named); ok {
+		return "dyn_impl_" + n.Origin().Obj().Name()
+	}
+	return "dyn_implements_" + identSan.ReplaceAllString(types.TypeString(ty, func(*types.Package) string { return "" }), "_")
+}
+
 func (u *Unit) boxFacts(env *Env, b Term, ty types.Type) {
+	if ty != nil && !isInterfaceT(ty) {
+		if n, ok := types.Unalias(ty).(*types.Named); ok && hasTypeParam(ty) {
+			fn := dynIsName(n)
+			u.D.Fun(fn, SBool, SVal)
+			env.assume(App(fn, SBool, b))
+			env.assume(Not(u.untyped(b)))
+			// a boxed value of a named non-interface type implements exactly the interfaces its method set satisfies
+			u.boxedStatic[b.S] = ty
+		}
+	}
 	if ty == nil || hasTypeParam(ty) || isInterfaceT(ty) {
 		return
 	}
+	u.boxedStatic[b.S] = ty
 	id := u.Prog.TypeIDs.ID(ty)
 	env.assume(Same(u.rtype(b), IntLit(int64(id))))
 	env.tags[b.S] = id
@@ -868,13 +894,24 @@ func (u *Unit) typeAssert(env *Env, x Value, ty types.Type) (Term, Value) {
 			// x.(interface{}) succeeds iff x is not the nil interface
 			return Not(u.untyped(x.Term)), v
 		}
-		fn := "dyn_implements_" + identSan.ReplaceAllString(types.TypeString(ty, func(*types.Package) string { return "" }), "_")
+		if st, ok := u.boxedStatic[x.S]; ok {
+			if it, ok := types.Unalias(ty).Underlying().(*types.Interface); ok {
+				return boolTerm(types.Implements(st, it) || types.Implements(types.NewPointer(st), it) && false), v
+			}
+		}
+		fn := dynImplName(ty)
 		u.D.Fun(fn, SBool, SVal)
 		return App(fn, SBool, x.Term), v
 	}
 	if hasTypeParam(ty) {
-		fn := "dyn_is_" + identSan.ReplaceAllString(types.TypeString(ty, func(*types.Package) string { return "" }), "_")
+		fn := dynIsName(ty)
 		u.D.Fun(fn, SBool, SVal)
+		if _, bare := types.Unalias(ty).(*types.TypeParam); bare {
+			// same dynamic type as a known value of static type T  =>  the assertion to T succeeds
+			for _, w := range u.tparamWitness[fn] {
+				env.assume(Imp(And(Not(u.untyped(x.Term)), Not(u.untyped(w)), Same(u.rtype(x.Term), u.rtype(w))), App(fn, SBool, x.Term)))
+			}
+		}
 		return App(fn, SBool, x.Term), v
 	}
 	id := u.Prog.TypeIDs.ID(ty)
@@ -901,8 +938,14 @@ func (u *Unit) convert(v Value, target types.Type, env *Env) Value {
 		return Value{u.zero(target), target}
 	}
 	if v.Sort == ts {
-		if ts == SVal && !isInterfaceTOrParam(v.Ty) {
-			// already boxed representation with a concrete static type (cannot happen) - keep
+		if ts == SVal && env != nil {
+			if tp, ok := types.Unalias(v.Ty).(*types.TypeParam); ok && isInterfaceT(target) && !strings.Contains(v.S, "?") {
+				// a value whose static type is the type parameter T has dynamic type T (or is the nil interface)
+				fn := dynIsName(tp)
+				u.D.Fun(fn, SBool, SVal)
+				env.assume(Imp(Not(u.untyped(v.Term)), App(fn, SBool, v.Term)))
+				u.tparamWitness[fn] = append(u.tparamWitness[fn], v.Term)
+			}
 		}
 		return Value{v.Term, target}
 	}
